@@ -115,6 +115,9 @@ EXTRA = {
 }
 # additions made during the third round of seeded changes
 EXTRA3 = {
+ "C17": " The outcome pools hold every assigned 5xx code and 30 more 4xx codes individually. TestC17TCP: over real loopback TCP (net/http's keep-alive transport, 0-2 warm-up calls) the front reads each attempt completely and then closes / resets the connection before any response byte, answers 503 / 429 / 404, or serves it: the attempts counted at the server are exactly the model's (one more after every transient fate, at most MaxRetries+1, one without a retry option) and equal the observed waits + 1.",
+ "C15": " A middleware kind hands a new request object (deep copy with modified arguments) to the next stage instead of mutating in place.",
+ "C16": " Bursts of 2-16 concurrent handshakes asking for different (supported and unsupported) versions, 1-60 rounds each: every answer is judged against its own request. The stdio child may be killed behind the client's back before Close.",
  "C08": " TestC08Init: the handshake as the pending call, for the three client kinds: Initialize meets a generated fate (answered, HTTP 503, JSON-RPC error, malformed result, never answered, child exits) and Close comes after it returned or 0-3000 microseconds after it started (while the connection / child process is being set up), optionally twice, over 1-6 fresh clients: both return, and afterwards no library goroutine, open response body or server-side stream, descriptor, pending entry or child process of this process (found through /proc, so also one forked after Close began) is left.",
  "C12": " Names and URIs come in three spellings (plain; spaces, non-ASCII, upper-case scheme, '|', '{}', trailing '#'; percent-encoded vs literal, query strings, urn:) - they are opaque keys; 0 / 40 / 300 ballast entries per registry widen the windows inside list requests and must all be listed every time; after the concurrent phase every registry is listed once more (a registration that has returned is visible to every later list, whatever raced with it).",
  "C03": " TestC03Stream: messages the server writes on its own initiative are judged by the same frame oracle: addressed and broadcast notifications (12 method spellings x 7 parameter shapes up to 70 KB), server-issued requests (roots/list inside a tool, SendRequest with server-numbered, integer and string ids; answered or ended by their context), in-call notifications of five constructions (progress, log, custom map, hand-built Notification, NewNotification with _meta), and listening streams opened and re-opened with generated Last-Event-ID values (what the server says about a resumption), on Streamable HTTP (JSON and event-stream answers) and legacy SSE; every frame on every current or replaced stream and in every POST answer must validate.",
